@@ -249,7 +249,7 @@ theorem optTtlOf_lt (ext ver : Nat) (dnssec : Bool) (h1 : ext < 256) (h2 : ver <
 
 theorem apl_bits : ∀ (k : Fin 128) (neg : Bool),
     ((k.val + if neg then 128 else 0) &&& 127 = k.val) ∧
-    (((k.val + if neg then 128 else 0) &&& 128) == 128) = neg := by decide
+    (((k.val + if neg then 128 else 0) &&& 128) == 128) = neg := by decide +kernel
 
 theorem ApItemAt.lt {buf : Bytes} {off e : Nat} {o : APItem} (h : ApItemAt buf off o e) : off + 4 ≤ e := by
   cases h; omega
@@ -316,5 +316,38 @@ theorem decApItems_complete {buf : Bytes} {lim : Nat} (hlb : lim ≤ buf.length)
       rw [isFinished_at (by simp only; omega)]
       have hne : ¬ (off = lim) := by omega
       simp only [hne, decide_false, h1, h2]
+
+/-! ## Non-vacuity -/
+
+section Examples
+
+local macro "bdec" : tactic => `(tactic| (unfold BytesAt; decide +kernel))
+
+/-- padding(2), ECS 10.1.2.0/24 written with three address octets, APL item `!1:10.0.0.0/8` -/
+private def exBuf : Bytes := [0, 12, 0, 2, 0, 0, 0, 8, 0, 7, 0, 1, 24, 0, 10, 1, 2, 0, 1, 8, 0x81, 10]
+
+private theorem exPad : OptionAt exBuf 0 (.padding 2) 6 := .padding (by decide) (by bdec)
+
+private theorem exEcs : OptionAt exBuf 6 (.ecs 1 24 0 [10, 1, 2, 0]) 17 :=
+  .ecs (len := 7) (by bdec) (by decide) (by decide) (by bdec) (by decide) (by decide)
+    ⟨.inl rfl, rfl, by decide, by bdec, by decide +kernel, by decide, ((checkPrefix_ok_iff _ _).mp rfl).2⟩
+
+example : ∃ c', decOptions 18 { buf := exBuf, off := 0, lim := 17, cost := 0 } =
+    .ok ([.padding 2, .ecs 1 24 0 [10, 1, 2, 0]], { buf := exBuf, off := 17, lim := 17, cost := c' }) :=
+  decOptions_complete (by decide) (by decide +kernel) (.cons exPad (by decide) (.cons exEcs (by decide) .nil)) 18 0
+    (by decide)
+
+private theorem exAp : ApItemAt exBuf 17 { fam := 1, pfx := 8, neg := true, addr := [10, 0, 0, 0] } 22 :=
+  .mk (k := 1) (by decide) (by decide) (by bdec)
+    ⟨.inl rfl, rfl, by decide, by bdec, by decide +kernel, by decide, ((checkPrefix_ok_iff _ _).mp rfl).2⟩
+
+example : ∃ c', decApItems 6 { buf := exBuf, off := 17, lim := 22, cost := 0 } =
+    .ok ([{ fam := 1, pfx := 8, neg := true, addr := [10, 0, 0, 0] }],
+      { buf := exBuf, off := 22, lim := 22, cost := c' }) :=
+  decApItems_complete (by decide) (by decide +kernel) (.cons exAp (by decide) .nil) 6 0 (by decide)
+
+example : optTtl (optTtlOf 1 0 true) = .ok (1, 0, true) := optTtl_of 1 0 true (by decide) (by decide)
+
+end Examples
 
 end Complete
